@@ -164,6 +164,14 @@ fn run(model: Model, seed: u64) -> Result<String, String> {
                 sim.nodes_from_ndl(&def, reg).unwrap();
             }
         }
+        // the order in which a spanned view lists the modules reachable from the first node is part of the history
+        if let Some(first) = sim.nodes().next() {
+            let sp = des::net::topology::Topology::spanned(sim.get(&first).unwrap());
+            let order: Vec<String> = sp.nodes().iter().map(|n| n.module().path().to_string()).collect();
+            let edges: Vec<String> = sp.edges().map(|e| format!("{}>{}", e.from.gate().path(), e.to.gate().path())).collect();
+            // (no time stamp: the clock is only set when the runtime is built)
+            log.lock().unwrap().push(format!("-|spanned nodes={order:?} edges={edges:?}"));
+        }
         let r = Builder::seeded(seed).quiet().max_time(1.0.into()).build(sim.freeze()).run();
         let tail = match r {
             Ok((_, t, p)) => format!("ok end={} events={}", t.as_nanos(), p.event_count),
